@@ -40,6 +40,17 @@ def run(tier, replay):
         if rc != 0 or not os.path.exists(cpath):
             raise vlib.Inconclusive("contact harness failed\n" + out[-2000:])
         contact = json.load(open(cpath))
+        # the connection throttle limits how many connections are being ESTABLISHED at once, not how many servers are contacted
+        ov3 = dict(ov2)
+        ov3["internal/clients/c18_throttle_test.go"] = "clients/c18_throttle_test.go"
+        tpath = os.path.join(wd, "throttle.json")
+        rc, out = vlib.go_test(wd, "./internal/clients", ov3, "TestC18Throttle", env={"VERIF_OUT": tpath}, timeout=180)
+        if rc != 0 or not os.path.exists(tpath):
+            raise vlib.Inconclusive("throttle harness failed\n" + out[-2000:])
+        thr = json.load(open(tpath))
+        if thr["contacted"] != thr["servers"]:
+            V.violation("with long-lived sessions and more servers (%d) than throttle slots (%d) only %d servers were contacted" %
+                        (thr["servers"], thr["capacity"], thr["contacted"]), thr)
         # ports are renamed 1..n (wanted listeners), n+1 = default-port listener
         wanted = list(range(1, len(contact["wanted"]) + 2))
         round1, allc = [], []
